@@ -19,6 +19,11 @@ import efflib
 def run(c):
     if c.replay:
         rp = json.load(open(c.replay))
+        if rp.get("kind") == "statet":
+            _, sout = c.harness("c17", [rp["case"]], name="replay-statet")
+            for rej in c.validate(sout, "TraceStateT", max_rejects=1):
+                c.report("C02:statet-run-differs", dict(case=rp["case"], kind="statet", observed=rej["line"]), "replayed: %s" % json.dumps(rej["line"])[:300])
+            return
         efflib.run_and_judge(c, "C02", [rp["case"]], "replay")
         return
     rng = random.Random(c.seed * 3 + 2)
@@ -33,5 +38,17 @@ def run(c):
         out = efflib.run_and_judge(c, "C02", cases, "c02-" + m)
         efflib.count(c, out, "runs = (combinator, arity, set of failing positions / supplier pattern / panic value) on the real packages; "
                      "non-trivial = some operand fails or a callback runs")
+    # the same clauses for the combinators that mix StateT with plain Try / Option operands (statet.ApTry / ApOption, Map2,
+    # Sequence, Concat, Traverse, FoldM over failing steps): StateTSpec decides (C17 goes deeper)
+    import os
+    sr = c.tlc("MCStateT", "MCStateT", count=False)
+    sprogs = json.load(open(os.path.join(sr.dir, "statetprogs.json")))
+    scases = [dict(kind="prog", prog=p["prog"], s0=p["s0"]) for p in rng.sample(sprogs, min(len(sprogs), 1500))]
+    scases.append(dict(kind="gen", seed=rng.getrandbits(30), count=800, depth=4))
+    _, sout = c.harness("c17", scases, name="c02-statet")
+    for rej in c.validate(sout, "TraceStateT", max_rejects=2):
+        case = json.loads(rej["events"][0]["case"])
+        c.report("C02:statet-run-differs", dict(case=case, kind="statet", observed=rej["line"]),
+                 "StateT program differs from StateTSpec!Run: %s" % json.dumps(rej["line"])[:300])
     c.assumptions += ["operands are values: the caller evaluates all of them, left to right, before the combinator runs; only callbacks "
                       "(continuations, suppliers, traverse functions, handlers) can be skipped by the library"]
